@@ -43,7 +43,7 @@ class Case(object):
 
   def __init__(self, prop, target, name, scenario, bounds=None, replay_kind=None,
                timeout_ms=None, max_paths=4000, assumptions=(), lo=-40, hi=40, term_mode=False,
-               setup=None, precise_ties=False):
+               setup=None, precise_ties=False, bounded=None):
     self.prop = prop
     self.target = target
     self.name = name
@@ -57,6 +57,7 @@ class Case(object):
     self.term_mode = term_mode
     self.setup = setup
     self.precise_ties = precise_ties
+    self.bounded = bounded          # None, or the stated bound: the case is a bounded stand-in, never counted as proved
 
   @property
   def id(self):
@@ -129,7 +130,8 @@ def run_case(case, tier, known):
   res = {"case": case.id, "prop": case.prop, "target": case.target, "name": case.name,
          "clauses": {}, "paths": 0, "error": None, "undecided_reason": None,
          "functions": {}, "lib_used": [], "notes": [], "samples": [], "cover": "ok",
-         "replay_kind": case.replay_kind, "assumptions": case.assumptions}
+         "replay_kind": case.replay_kind, "assumptions": case.assumptions,
+         "bounded": case.bounded}
   L.USED.clear()
   L.PRECISE_TIES[0] = bool(getattr(case, "precise_ties", False))
   try:
